@@ -86,6 +86,23 @@ func (l *lockedRand) Intn(n int) int {
 	return l.r.Intn(n)
 }
 
+// freshPort: a port below the ephemeral range that no broker of THIS process has listened on before (a client that is late
+// with a dial must never reach the broker that took over the address of the one it meant)
+var usedPorts = map[int]bool{}
+
+func freshPort() int {
+	portRand.mu.Lock()
+	defer portRand.mu.Unlock()
+	for i := 0; i < 100000; i++ {
+		p := 10000 + portRand.r.Intn(22000)
+		if !usedPorts[p] {
+			usedPorts[p] = true
+			return p
+		}
+	}
+	return 0
+}
+
 var (
 	regMu    sync.RWMutex
 	registry = map[interface{}]*Broker{}
@@ -172,7 +189,7 @@ func start(o Options) (*Broker, error) {
 	// tens of thousands of short connections keep in TIME_WAIT: listen BELOW that range (a port there is taken only by another
 	// listener), port 0 as the fallback.
 	for i := 0; i < 400; i++ {
-		addr := fmt.Sprintf("127.0.0.1:%d", 10000+portRand.Intn(22000))
+		addr := fmt.Sprintf("127.0.0.1:%d", freshPort())
 		if i%8 == 7 {
 			addr = "127.0.0.1:0"
 		}
@@ -195,7 +212,7 @@ func start(o Options) (*Broker, error) {
 		var wl net.Listener
 		var err error
 		for i := 0; i < 400; i++ {
-			addr := fmt.Sprintf("127.0.0.1:%d", 10000+portRand.Intn(22000))
+			addr := fmt.Sprintf("127.0.0.1:%d", freshPort())
 			if i%8 == 7 {
 				addr = "127.0.0.1:0"
 			}
